@@ -4,6 +4,7 @@
 import TradingVerif.Lemmas.EnvStep
 import TradingVerif.Props.C01
 import TradingVerif.Props.C04
+import TradingVerif.Props.C05
 import Mathlib.Algebra.Order.Field.Rat
 set_option linter.unusedSectionVars false
 set_option linter.unusedVariables false
@@ -58,7 +59,9 @@ theorem entry_is_actual (pw : K → K → K) (w : World K) (r : Rebal K) (b : Br
       (rebalance pw w r b).1.record = b.record ++
         [{ time := r.time, interest := i, nlvPre := n, nlvPost := m, trades := ts,
            target := cleanAlloc w r.target, posPost := b4.held.map (fun k => (k, b4.pos k)), cashPost := b4.cash,
-           cashPre := b2.cash }] ∧
+           cashPre := b2.cash, posPre := b2.held.map (fun k => (k, b2.pos k)),
+           marginPre := b2.held.map (fun k => (k, b2.margin k)),
+           marginPost := b4.held.map (fun k => (k, b4.margin k)) }] ∧
       (rebalance pw w r b).1.pos = b4.pos ∧ (rebalance pw w r b).1.cash = b4.cash := by
   obtain ⟨_, f2, _, _⟩ := accrue_frame pw w r.time true b
   unfold rebalance at h ⊢
@@ -109,6 +112,42 @@ theorem entry_is_actual (pw : K → K → K) (w : World K) (r : Rebal K) (b : Br
                   rw [this, markAll_record, hfold, hb2]
                 split_ifs at h ⊢ with hdup
                 exact ⟨b1, i, b2, n, ts, b4, m, rfl, hn, hm, hx, by simp only; rw [hb4], rfl, rfl⟩
+
+/-- **The pre-trade snapshot is consistent in itself**: in the entry of a successful rebalance on a state
+    satisfying the ledger invariant with every held contract quoted on its liquidation side, the recorded
+    pre-trade NLV equals the recorded pre-trade cash plus the recorded pre-trade margins plus the liquidation value
+    of the recorded fully-paid positions — all taken from the same marked state. -/
+theorem entry_snapshot_consistent (pw : K → K → K) (w : World K) (D : K) (hw : ∀ k, WFSpec (w.spec k))
+    (r : Rebal K) (b : Broker K) (hinv : Inv w D b) (h : (rebalance pw w r b).2 = .ok ())
+    (hq : ∀ k ∈ b.held, Quoted (accrue pw w r.time true b).1 k) :
+    ∃ en : Entry K, (rebalance pw w r b).1.record = b.record ++ [en] ∧
+      ∃ b2 : Broker K, b2 = markAll w (accrue pw w r.time true b).1 ∧
+        en.cashPre = b2.cash ∧ en.posPre = b2.held.map (fun k => (k, b2.pos k)) ∧
+        en.marginPre = b2.held.map (fun k => (k, b2.margin k)) ∧
+        en.nlvPre = b2.cash + sumL (b2.held.map b2.margin) +
+          sumL (b2.held.map fun k => if (w.spec k).mr = 0 then (w.spec k).mult * b2.pos k * liqv b2 k else 0) := by
+  obtain ⟨b1, i, b2, n, ts, b4, m, ha, hn, _, _, hrec, _, _⟩ := entry_is_actual pw w r b h
+  have hb1 : (accrue pw w r.time true b).1 = b1 := by rw [ha]
+  have hinv1 : Inv w D b1 := by rw [← hb1]; exact accrue_inv pw w D r.time true b hinv
+  have hheld : b1.held = b.held := by rw [← hb1]; exact (accrue_frame pw w r.time true b).2.2.1
+  have hq1 : ∀ k ∈ b1.held, Quoted b1 k := by
+    intro k hk; rw [← hb1]; exact hq k (by rw [← hheld]; exact hk)
+  have hb2 : b2 = markAll w b1 := by
+    have := netLiq_fst w true b1
+    rw [hn] at this; exact this
+  have hdec := nlv_decomposition_inv w D hw b1 hinv1 hq1
+  simp only at hdec
+  have hnval : n = b2.cash + sumL (b2.held.map b2.margin) +
+      sumL (b2.held.map fun k => if (w.spec k).mr = 0 then (w.spec k).mult * b2.pos k * liqv b2 k else 0) := by
+    unfold netLiq at hn
+    rw [← hb2] at hdec
+    simp only [← hb2, hdec] at hn
+    split_ifs at hn
+    · simp only [Prod.mk.injEq] at hn
+      exact absurd hn.2 (by simp)
+    · simp only [Prod.mk.injEq, Except.ok.injEq] at hn
+      exact hn.2.symm
+  refine ⟨_, hrec, b2, by rw [hb2, hb1], rfl, rfl, rfl, hnval⟩
 
 /-- with C01's identity: the recorded pre-trade NLV is the ledger's closed form at that moment -/
 theorem checkpoint_nlv_eq_ledger (w : World K) (D : K) (b1 : Broker K) (b2 : Broker K) (n : K)
